@@ -18,8 +18,11 @@ for fn in sorted(os.listdir(d)):
     fp = r["fingerprint"]
     if rx and not rx.search(fp): continue
     if (prop, fp) in have: continue
-    cause = next((c for c in NOTES if "/" + c in fp), None)
-    what = (NOTES.get(cause, "") + " — witness: " + r["what"][:300]).strip(" —")
+    cause = next((c for c in NOTES if "/" + c in fp), None) if prop == "C02" else None
+    w = r["what"]
+    i = w.find("panic:")
+    if i >= 0: w = w[i:i+400]
+    what = (NOTES.get(cause, "") + " — witness: " + w[:420]).strip(" —")
     f.append({"property": prop, "fingerprint": fp, "status": "known", "witness": f"{d}/{fn}", "what": what})
     print("added", fp)
 json.dump(f, open("known_findings.json", "w"), indent=1)
